@@ -29,18 +29,46 @@ def keccak_f(ex, a, ins):
     ex.events.append(('keccakF', ''))
     return None
 
+def _content_eq(c1, c2):
+    """condition under which two absorbed contents (algorithm, N, S, written bytes) are equal"""
+    if c1[0] != c2[0] or any(len(x) != len(y) for x, y in zip(c1[1:], c2[1:])):
+        return False
+    r = True
+    for x, y in zip(c1[1:], c2[1:]):
+        for a, b in zip(x, y):
+            r = band(r, int_binop('==', a, b, 8, False))
+            if r is False:
+                return False
+    return r
+
+def register_digest(ex, content, outs):
+    """collision resistance of the modelled hash functions: equal digests (>= 16 bytes) imply equal inputs"""
+    if len(outs) < 16:
+        return
+    reg = ex.pstate.setdefault('digests', [])
+    d = z3.Concat(*[tobv(o, 8) for o in outs[:16]])
+    for (c2, d2) in reg:
+        ce = _content_eq(content, c2)
+        if ce is True:
+            continue
+        ex.add(z3.Implies(d == d2, z3.BoolVal(False) if ce is False else ce))
+    reg.append((content, d))
+
 class Stream:
-    def __init__(self, alg, init, size, block):
+    def __init__(self, alg, init, size, block, N=(), S=()):
         self.alg, self.init, self.st = alg, init, init
+        self.N, self.S, self.data = list(N), list(S), []
         self.size, self.block = size, block
         self.readpos = 0
         self.nwritten = 0
         self.shared = False       # set by write-effect harnesses (C19)
     def clone(self):
-        s = Stream(self.alg, self.init, self.size, self.block)
-        s.st, self.readpos, s.nwritten = self.st, self.readpos, self.nwritten
-        s.readpos = self.readpos
+        s = Stream(self.alg, self.init, self.size, self.block, self.N, self.S)
+        s.st, s.nwritten, s.readpos = self.st, self.nwritten, self.readpos
+        s.data = list(self.data)
         return s
+    def content(self):
+        return (self.alg, self.N, self.S, self.data)
 
 def _mut(ex, s, what):
     log = getattr(ex, 'effects', None)
@@ -54,26 +82,31 @@ def s_write(ex, a, ins):
         raise GoPanic('explicit', 'sha3: Write after Read')
     bs = ex.read_bytes(p)
     s.st = chain(s.st, bs)
+    s.data = s.data + bs
     s.nwritten += len(bs)
     return (p.len, None)
 
 def s_read(ex, a, ins):
     s, p = a[0], a[1]
     _mut(ex, s, 'Read')
-    ex.write_bytes(p, [OUT(s.st, z3.BitVecVal(s.readpos + i, 32)) for i in range(p.len)])
+    outs = [OUT(s.st, z3.BitVecVal(s.readpos + i, 32)) for i in range(p.len)]
+    if s.readpos == 0:
+        register_digest(ex, s.content(), outs)
+    ex.write_bytes(p, outs)
     s.readpos += p.len
     return (p.len, None)
 
 def s_sum(ex, a, ins):
     s, b = a[0], a[1]
     dig = [OUT(s.st, z3.BitVecVal(i, 32)) for i in range(s.size)]
+    register_digest(ex, s.content(), dig)
     pre = ex.read_bytes(b) if isinstance(b, Slice) and b.len else []
     return ex.make_bytes(pre + dig, 'sum')
 
 def s_reset(ex, a, ins):
     s = a[0]
     _mut(ex, s, 'Reset')
-    s.st, s.readpos, s.nwritten = s.init, 0, 0
+    s.st, s.readpos, s.nwritten, s.data = s.init, 0, 0, []
     return None
 
 def s_clone(ex, a, ins):
@@ -82,7 +115,7 @@ def s_clone(ex, a, ins):
 def new_cshake128(ex, a, ins):
     N, S = ex.read_bytes(a[0]), ex.read_bytes(a[1])
     init = ALG(z3.BitVecVal(ALGID['cshake128'], 32), chain(EMPTY, N), chain(EMPTY, S))
-    return Iface(STREAM_T, Stream('cshake128', init, 32, 168))
+    return Iface(STREAM_T, Stream('cshake128', init, 32, 168, N, S))
 
 def new_sha256(ex, a, ins):
     init = ALG(z3.BitVecVal(ALGID['sha256'], 32), EMPTY, EMPTY)
